@@ -136,10 +136,10 @@ theorem execute_keep (hT : TimerFn3 setT) (s : St) (j i : Nat) (due : Int) (hne 
   unfold execute
   simp only []
   generalize hs0 : (if (s.job j).execFail.contains (s.job j).execs = true then
-      (((s.emit (Ev.exec j s.now due)).setJob j { s.job j with execs := (s.job j).execs + 1 })).emit (Ev.exc "CallableError")
-    else ((s.emit (Ev.exec j s.now due)).setJob j { s.job j with execs := (s.job j).execs + 1 })) = s0
-  have hb : JobOK ({ s.job j with execs := (s.job j).execs + 1 } : Job) := hI.st j
-  have hA : Inv ((s.emit (Ev.exec j s.now due)).setJob j { s.job j with execs := (s.job j).execs + 1 }) :=
+      (((s.emit (Ev.exec j s.now due)).setJob j { s.job j with execs := (s.job j).execs + 1, lastRun := some s.now })).emit (Ev.exc "CallableError")
+    else ((s.emit (Ev.exec j s.now due)).setJob j { s.job j with execs := (s.job j).execs + 1, lastRun := some s.now })) = s0
+  have hb : JobOK ({ s.job j with execs := (s.job j).execs + 1, lastRun := some s.now } : Job) := hI.st j
+  have hA : Inv ((s.emit (Ev.exec j s.now due)).setJob j { s.job j with execs := (s.job j).execs + 1, lastRun := some s.now }) :=
     (InvEx_setJob _ ((Inv_emit _ hI (by simpa [evOK] using hdue)).toEx j) hb).toInv hj
   have h0 : SameClock s s0 ∧ s0.queue = s.queue ∧ s0.nr i = s.nr i ∧ Inv s0 := by
     subst hs0
